@@ -93,41 +93,50 @@ def nsga2_step(args):
 
     alg.generate = contract_generate
 
+    faults = args.get('faults', 0)
+    if faults:
+        # the re-roll after a transient failure is replaced by its contract (a fresh in-box design,
+        # established by C06/C08) with CONCRETE coordinates, so that the real set()/hash path still runs
+        import artap.job as JOB
+
+        class _Reroll(object):
+            n = 0
+
+            @classmethod
+            def gen_vector(cls, parameters):
+                cls.n += 1
+                return [70.0 + cls.n]
+        stubs.install((JOB, 'VectorAndNumbers', _Reroll))
+        box['reroll'] = _Reroll
+
     def body(ctx):
         ops.configure(round_grid=False)   # the 1e-7 grid of np.round is irrelevant here (C05 checks the rounding)
-        ec.reset_problem(prob, ctx)
-        parents = []
-        for i in range(N):
-            p = NS.IndividualNSGAII([float(i)])
-            vals = [ctx.real('par%d_F%d' % (i, k)) for k in range(m)]
-            if ncon:
-                prob.h.con_calls.append(([float(i)], [ctx.real('par%d_G%d' % (i, k)) for k in range(ncon)]))
-                p.features['feasible'] = bool(And(*[v < 0 for v in prob.h.con_calls[-1][1]]))
-            prob.h.calls.append(([float(i)], vals, 'ok'))     # congruence with later calls on the same design
-            p.costs = list(vals)
-            p.calc_signed_costs(prob.signs)
-            p.state = p.State.EVALUATED
-            parents.append(p)
-        n0 = len(prob.h.calls)
+        ec.reset_problem(prob, ctx, faults=bool(faults), max_faults=faults)
+        if faults:
+            box['reroll'].n = 0
+        prob.h.fault_kinds = 3            # transient failures only (ok / TimeoutError / RuntimeError)
+        # the pre-state is produced by the real evaluation path (so that whatever Job.evaluate leaves in the
+        # individuals after a retried failure is part of it); costs are arbitrary (uninterpreted objective)
+        parents = [NS.IndividualNSGAII([float(i)]) for i in range(N)]
+        alg.evaluate(parents)
+        for p in parents:
+            ctx.check('parents-evaluated', p.state != p.State.EVALUATED)
+        n0 = len([c for c in prob.h.calls if c[2] == 'ok'])
         rec0 = len(prob.individuals)
         itc = args.get('it', 0)
         survivors = step(alg, list(parents), itc)
-        calls = prob.h.calls[n0:]
+        calls = [c for c in prob.h.calls if c[2] == 'ok'][n0:]
         offspring = box['offspring']
-        ctx.output('survivor_designs', sorted(s.vector[0] for s in survivors))
-        fresh = [o for o in offspring if not any(o.vector == p.vector for p in parents)]
+        ctx.output('n_survivors', len(survivors))
         ctx.check('exactly-N-objective-evaluations-per-generation', len(calls) != N)
         recorded = prob.individuals[rec0:]
         ctx.check('exactly-N-individuals-recorded', len(recorded) != N)
         ctx.check('recorded-with-tag-it+2', any(r.population_id != itc + 2 for r in recorded))
         ctx.check('recorded-are-the-survivors', [id(r) for r in recorded] != [id(s) for s in survivors])
-        designs = [s.vector[0] for s in survivors]
-        ctx.check('no-design-twice-in-a-generation', len(set(designs)) != len(designs))
+        ctx.check('no-design-twice-in-a-generation',
+                  any(bool(a == b) for i, a in enumerate(survivors) for b in survivors[i + 1:]))
         ctx.check('survivors-are-evaluated', any(len(s.costs_signed) != m + 1 for s in survivors))
-        cands = {}
-        for c in offspring + parents:
-            cands.setdefault(c.vector[0], c)
-        dropped = [c for d, c in cands.items() if d not in designs]
+        dropped = [c for c in offspring + parents if not any(bool(c == s) for s in survivors)]
         ctx.check('no-survivor-dominated-by-a-dropped-candidate',
                   Or(*[dominates(c.costs_signed, s.costs_signed) for s in survivors for c in dropped]))
         if m == 1 and ncon == 0:
@@ -325,12 +334,13 @@ def configs(tier):
     out = []
     ve = {'validate': 15}
 
-    def step(N, m, ncon=0, repeats=(), split=None, it=0):
-        out.append({'name': 'step-N%d-m%d-con%d%s-it%d' % (N, m, ncon, '-rep' + ''.join('%d%d' % kv for kv in sorted(dict(repeats).items())) if repeats else '', it),
-                    'task': 'nsga2_step', 'args': {'N': N, 'm': m, 'ncon': ncon, 'repeats': dict(repeats), 'it': it},
+    def step(N, m, ncon=0, repeats=(), split=None, it=0, faults=0):
+        out.append({'name': 'step-N%d-m%d-con%d%s-it%d%s' % (N, m, ncon, '-rep' + ''.join('%d%d' % kv for kv in sorted(dict(repeats).items())) if repeats else '', it, '-faults%d' % faults if faults else ''),
+                    'task': 'nsga2_step', 'args': {'N': N, 'm': m, 'ncon': ncon, 'repeats': dict(repeats), 'it': it, 'faults': faults},
                     'weight': 80 ** m * (10 if N >= 3 else 1), 'split': split, 'engine': ve})
     step(2, 1)
     step(2, 1, repeats=((1, 0),), it=3)
+    step(2, 1, faults=1, split=48)
     step(2, 2, split=64)
     if not Q:
         step(2, 2, repeats=((0, 1),), split=64)
